@@ -169,3 +169,33 @@ func vh_C18_Verbs() {
 	}
 	vfReach("end")
 }
+
+// two instances from the DEFAULT constructors (NewSimpleHTTP / NewSimpleAPI, no client supplied) are independent: a
+// request through one runs exactly its own interceptors, once, in order, then the (process-wide default) transport.
+// The stub is installed as http.DefaultTransport for the duration of the run and everything global is restored.
+func vh_C18_DefaultConstructors() {
+	var log []string
+	tr := &vhTransport{log: &log}
+	oldT, oldCT := http.DefaultTransport, http.DefaultClient.Transport
+	defer func() { http.DefaultTransport, http.DefaultClient.Transport = oldT, oldCT }()
+	http.DefaultTransport = tr
+	ics := c18Setup(&log, -1)
+	var s1, s2 *SimpleHTTPDef
+	if vfChoose("via-api", 2) == 1 {
+		s1, s2 = NewSimpleAPI("http://h").GetSimpleHTTP(), NewSimpleAPI("http://h").GetSimpleHTTP()
+	} else {
+		s1, s2 = NewSimpleHTTP(), NewSimpleHTTP()
+	}
+	s1.AddInterceptor(ics[0])
+	s2.AddInterceptor(ics[1], ics[2])
+	if vfChoose("first", 2) == 0 {
+		if !c18Request(s1, tr, &log, []int{0}, -1, 0) || !c18Request(s2, tr, &log, []int{1, 2}, -1, 0) {
+			return
+		}
+	} else {
+		if !c18Request(s2, tr, &log, []int{1, 2}, -1, 0) || !c18Request(s1, tr, &log, []int{0}, -1, 0) {
+			return
+		}
+	}
+	vfReach("end")
+}
